@@ -139,7 +139,11 @@ theorem den_add (p q : LP R) (hp : p.WF) (hq : q.WF)
   unfold LP.add
   by_cases hpz : p.iszero = true
   · rw [if_pos hpz]
-    exact ⟨_, rfl, by rw [den_mk', den_of_iszero hp hpz, zero_add]; rfl, WF_mk' _ _⟩
+    by_cases hqz : q.iszero = true
+    · rw [if_pos hqz]
+      exact ⟨_, rfl, by rw [den_mk', den_of_iszero hp hpz, den_of_iszero hq hqz, zero_add]; simp, WF_mk' _ _⟩
+    · rw [if_neg hqz]
+      exact ⟨_, rfl, by rw [den_mk', den_of_iszero hp hpz, zero_add]; rfl, WF_mk' _ _⟩
   rw [if_neg hpz]
   by_cases hqz : q.iszero = true
   · rw [if_pos hqz]
